@@ -4,7 +4,7 @@ harness/c15.c is built on `asan-dbg5` (library + harness compiled with DEBUG 5) 
 build runs all populations (tracker interleavings, macro programs, table primitives, object workload) against the shadow
 dictionary; the DEBUG 4 build runs the macro programs only, and the per-case digests of their visible allocation
 semantics (NULL-ness of every result, FREE nulling its argument, heap balance) are compared between the two builds."""
-import os, subprocess
+import os, subprocess, tempfile, shutil
 import vf
 
 
@@ -19,10 +19,13 @@ def rebuild_for_replay(rec):
 def _trace(exe, seed, idx, tier):
     """journal of one case (verbose replay), only the op lines"""
     e = dict(os.environ); e.update(vf.ASAN_ENV); e['VERIF_TIER'] = tier
-    out = os.path.join(vf.BUILD, 'run')
-    os.makedirs(out, exist_ok=True)
-    p = subprocess.run([exe, '--seed', str(seed), '--nshards', str(vf.NCPU), '--only', str(idx), '--verbose', '--out', out],
-                       stdout=subprocess.PIPE, stderr=subprocess.PIPE, env=e, timeout=300, cwd=out)
+    os.makedirs(os.path.join(vf.BUILD, 'run'), exist_ok=True)
+    out = tempfile.mkdtemp(prefix='c15trace-', dir=os.path.join(vf.BUILD, 'run'))
+    try:
+        p = subprocess.run([exe, '--seed', str(seed), '--nshards', str(vf.NCPU), '--only', str(idx), '--verbose', '--out', out],
+                           stdout=subprocess.PIPE, stderr=subprocess.PIPE, env=e, timeout=300, cwd=out)
+    finally:
+        shutil.rmtree(out, ignore_errors=True)
     return [l.strip() for l in p.stderr.decode('utf-8', 'replace').splitlines() if l.startswith('  op[')]
 
 
